@@ -125,3 +125,155 @@ Definition run_ppos ri ci x y th tw rc cc spr spc sl : val :=
 Definition run_tiled_full ps th tw : val := VB (are_tiled_full ps th tw).
 Definition run_tile_array M R C ro co th tw pad : val :=
   vres vz_list2 (get_tile_array M R C ro co th tw pad).
+
+(* ======================================================================
+   Extension: guards, optional attributes and further entry points of the
+   anchored functions (same files), so that the correspondence run compares
+   model and implementation on them as well.
+   ====================================================================== *)
+
+(* spatial.create_rotation_matrix refuses non-positive spacings *)
+Definition bad_spacing (spr spc : Q) : bool := Qle_bool spr 0 || Qle_bool spc 0.
+
+(* spatial.compute_tile_positions_per_frame with its argument checks:
+   lengths of position / orientation / spacing (ValueError), `// columns`,
+   `// rows` (ZeroDivisionError), then PixelToReferenceTransformer
+   (create_rotation_matrix: ValueError on a spacing <= 0). *)
+Definition tile_positions_chk (npos nori nsp : Z) (R C th tw : Z) (pos rowcos colcos : vec3)
+           (spr spc : Q) : res (list ((Z * Z) * vec3)) :=
+  if negb (npos =? 3) then Err "ValueError"
+  else if negb (nori =? 6) then Err "ValueError"
+  else if negb (nsp =? 2) then Err "ValueError"
+  else if (tw =? 0) || (th =? 0) then Err "ZeroDivisionError"
+  else if bad_spacing spr spc then Err "ValueError"
+  else Ok (tile_positions R C th tw pos rowcos colcos spr spc).
+
+(* PixelToReferenceTransformer: the 4 x 4 affine matrix built by
+   create_affine_matrix_from_attributes (index convention (R, D),
+   right-handed, spacing_between_slices = 1) and its application to the
+   column vector (c, r, 0, 1). *)
+Definition cross (a b : vec3) : vec3 :=
+  V3 (vy a * vz b - vz a * vy b) (vz a * vx b - vx a * vz b) (vx a * vy b - vy a * vx b).
+Definition affine_matrix (pos rowcos colcos : vec3) (spr spc : Q) : list (list Q) :=
+  let n := cross rowcos colcos in
+  [ [vx rowcos * spc; vx colcos * spr; vx n * 1; vx pos];
+    [vy rowcos * spc; vy colcos * spr; vy n * 1; vy pos];
+    [vz rowcos * spc; vz colcos * spr; vz n * 1; vz pos];
+    [0; 0; 0; 1] ]%Q.
+Definition dotq (a b : list Q) : Q := fold_left Qplus (map (fun p => fst p * snd p)%Q (combine a b)) 0%Q.
+Definition affine_apply (A : list (list Q)) (c r : Z) : vec3 :=
+  let v := [inject_Z c; inject_Z r; 0; 1]%Q in
+  V3 (dotq (nth 0 A []) v) (dotq (nth 1 A []) v) (dotq (nth 2 A []) v).
+
+(* utils.compute_plane_position_tiled_full with both optional 3-D
+   parameters: ValueError (indices) before TypeError (exactly one of
+   slice_index / spacing_between_slices given) before the transformer's
+   ValueError (spacing <= 0). *)
+Definition plane_position_tiled_full2 (row_index column_index : Z) (x y : Q)
+           (th tw : Z) (rowcos colcos : vec3) (spr spc : Q)
+           (slice_index : option Z) (sbs : option Q) : res ((Z * Z) * vec3) :=
+  if (row_index <? 1) || (column_index <? 1) then Err "ValueError"
+  else match slice_index, sbs with
+       | Some k, Some s =>
+           if bad_spacing spr spc then Err "ValueError"
+           else plane_position_tiled_full row_index column_index x y th tw rowcos colcos spr spc (Some (k, s))
+       | None, None =>
+           if bad_spacing spr spc then Err "ValueError"
+           else plane_position_tiled_full row_index column_index x y th tw rowcos colcos spr spc None
+       | _, _ => Err "TypeError"
+       end.
+
+(* spatial.iter_tiled_full_frame_data at the level of the dataset: SOP class
+   and dimension-organisation checks, optional attributes with their
+   defaults, LABELMAP channel, origin z offset. *)
+Definition iter_gen {Ch : Type} (chans : list Ch) (nfp : Z) (plane : Z -> list ((Z * Z) * vec3))
+  : list (Ch * Z * (Z * Z) * vec3) :=
+  flat_map (fun ch =>
+    flat_map (fun k => map (fun t => (ch, k + 1, fst t, snd t)) (plane k)) (zrange nfp))
+    chans.
+
+Inductive sopclass := SC_WSI | SC_SEG | SC_LABELMAP_SEG | SC_OTHER.
+Record tf_dataset := TFD {
+  ds_sop : sopclass;
+  ds_dim_org : option bool;        (* None: attribute absent; Some b: b = (value = "TILED_FULL") *)
+  ds_nfp : option Z;               (* TotalPixelMatrixFocalPlanes *)
+  ds_labelmap : bool;              (* SegmentationType = "LABELMAP" *)
+  ds_nseg : Z;                     (* len(SegmentSequence) *)
+  ds_nop : option Z;               (* NumberOfOpticalPaths *)
+  ds_len_ops : Z;                  (* len(OpticalPathSequence) *)
+  ds_sbs : option Q;               (* SpacingBetweenSlices *)
+  ds_zorigin : option Q;           (* ZOffsetInSlideCoordinateSystem of the origin *)
+  ds_R : Z; ds_C : Z; ds_th : Z; ds_tw : Z;
+  ds_x : Q; ds_y : Q; ds_rc : vec3; ds_cc : vec3; ds_spr : Q; ds_spc : Q }.
+
+Definition opt_default {A} (d : A) (o : option A) : A := match o with Some a => a | None => d end.
+Definition ds_channels (d : tf_dataset) : list (option Z) :=
+  match ds_sop d with
+  | SC_SEG | SC_LABELMAP_SEG =>
+      if ds_labelmap d then [None] else map (fun c => Some (c + 1)) (zrange (ds_nseg d))
+  | _ => map (fun c => Some (c + 1)) (zrange (opt_default (ds_len_ops d) (ds_nop d)))
+  end.
+Definition ds_plane (d : tf_dataset) (k : Z) : list ((Z * Z) * vec3) :=
+  tile_positions (ds_R d) (ds_C d) (ds_th d) (ds_tw d)
+    (V3 (ds_x d) (ds_y d) (opt_default 0 (ds_zorigin d) + inject_Z k * opt_default 1 (ds_sbs d))%Q)
+    (ds_rc d) (ds_cc d) (ds_spr d) (ds_spc d).
+Definition iter_tiled_full_ds (d : tf_dataset) : res (list (option Z * Z * (Z * Z) * vec3)) :=
+  match ds_sop d with
+  | SC_OTHER => Err "ValueError"
+  | _ =>
+    match ds_dim_org d with
+    | Some true => Ok (iter_gen (ds_channels d) (opt_default 1 (ds_nfp d)) (ds_plane d))
+    | _ => Err "ValueError"
+    end
+  end.
+
+(* utils.compute_plane_position_slide_per_frame: one plane position per
+   frame of iter_tiled_full_frame_data, (column, row) and (x, y, z) only *)
+Definition slide_per_frame (d : tf_dataset) : res (list ((Z * Z) * vec3)) :=
+  bind (iter_tiled_full_ds d) (fun l => Ok (map (fun t => (snd (fst t), snd t)) l)).
+
+(* spatial.get_tile_array on an array with trailing dimensions (R x C x S,
+   each pixel a list of samples): the cut is the same, pads are zero pixels *)
+Definition get_tile_array_nd (S : Z) (M : list (list (list Z))) (R C : Z) (ro co th tw : Z) (pad : bool)
+  : res (list (list (list Z))) :=
+  if (ro <? 1) || (R <? ro) then Err "ValueError"
+  else if (co <? 1) || (C <? co) then Err "ValueError"
+  else
+    let ro0 := ro - 1 in let co0 := co - 1 in
+    let rend := Z.min (ro0 + th) R in let cend := Z.min (co0 + tw) C in
+    let pad_rows := Z.max (ro0 + th - R) 0 in
+    let pad_cols := Z.max (co0 + tw - C) 0 in
+    let zpix := repeat 0 (Z.to_nat S) in
+    let t := map (slice_list co0 cend) (slice_list ro0 rend M) in
+    if pad then
+      Ok (pad_right (repeat zpix (Z.to_nat (cend - co0 + pad_cols))) pad_rows
+                    (map (pad_right zpix pad_cols) t))
+    else Ok t.
+
+(* every tile of the grid, in the order of compute_tile_positions_per_frame *)
+Definition cut_all (M : list (list Z)) (R C th tw : Z) (pad : bool)
+  : list ((Z * Z) * res (list (list Z))) :=
+  map (fun o => (o, get_tile_array M R C (snd o) (fst o) th tw pad)) (tile_offsets R C th tw).
+
+(* ---- further boundary functions ---------------------------------------- *)
+Definition vpos_list (l : list ((Z * Z) * vec3)) : val :=
+  VL (map (fun t => VL [vpairz (fst t); vvec (snd t)]) l).
+Definition run_positions_chk npos nori nsp R C th tw pos rc cc spr spc : val :=
+  vres vpos_list (tile_positions_chk npos nori nsp R C th tw pos rc cc spr spc).
+Definition run_affine pos rc cc spr spc : val :=
+  VL (map vq_list (affine_matrix pos rc cc spr spc)).
+Definition run_affine_apply pos rc cc spr spc (pts : list (Z * Z)) : val :=
+  VL (map (fun p => vvec (affine_apply (affine_matrix pos rc cc spr spc) (fst p) (snd p))) pts).
+Definition run_ppos2 ri ci x y th tw rc cc spr spc sidx sbs : val :=
+  vres (fun t => VL [vpairz (fst t); vvec (snd t)])
+       (plane_position_tiled_full2 ri ci x y th tw rc cc spr spc sidx sbs).
+Definition run_iter_ds (d : tf_dataset) : val :=
+  vres (fun l => VL (map (fun t => match t with (ch, k, o, p) =>
+          VL [vopt VZ ch; VZ k; VZ (fst o); VZ (snd o); vvec p] end) l))
+       (iter_tiled_full_ds d).
+Definition run_slide_per_frame (d : tf_dataset) : val := vres vpos_list (slide_per_frame d).
+Definition vz_list3 (l : list (list (list Z))) : val := VL (map vz_list2 l).
+Definition run_tile_array_nd S M R C ro co th tw pad : val :=
+  vres vz_list3 (get_tile_array_nd S M R C ro co th tw pad).
+Definition run_cut_all M R C th tw pad : val :=
+  VL (map (fun t => VL [vpairz (fst t); vres vz_list2 (snd t)]) (cut_all M R C th tw pad)).
